@@ -27,6 +27,9 @@ type Ctx struct {
 	notes      []string // unmodelled things encountered (reported in evidence)
 	assumed    map[string]bool
 	trace      []string
+	// curAllocState: the state whose allocation counter bounds pointers inside a struct value
+	// whose type invariant is being assumed
+	curAllocState *State
 }
 
 type structInfo struct {
@@ -646,6 +649,12 @@ func inRange(v Term, t types.Type) Term {
 // assumeTypeInv adds the type invariant of a freshly introduced value (integer range,
 // slice header sanity).
 func (c *Ctx) assumeTypeInv(v Term, t types.Type, st *State) {
+	if st != nil {
+		c.curAllocState = st
+		defer func() { c.curAllocState = nil }()
+	} else if c.curAllocState != nil {
+		st = c.curAllocState
+	}
 	switch v.Sort {
 	case SInt:
 		c.assume(inRange(v, t))
@@ -661,6 +670,31 @@ func (c *Ctx) assumeTypeInv(v Term, t types.Type, st *State) {
 	case SIface:
 		// the nil interface is unique
 		c.assume(Term{fmt.Sprintf("(=> (= (itag %s) 0) (= %s niliface))", v.S, v.S), SBool})
+	default:
+		// struct values: invariants of their pointer / slice / integer components (two levels)
+		if t == nil {
+			return
+		}
+		if st, ok := types.Unalias(t).Underlying().(*types.Struct); ok && st.NumFields() <= 12 {
+			c.structTypeInv(v, t, st, st0(st != nil), 0)
+		}
+	}
+}
+
+func st0(bool) *State { return nil }
+
+func (c *Ctx) structTypeInv(v Term, t types.Type, st *types.Struct, _ *State, depth int) {
+	for i := 0; i < st.NumFields(); i++ {
+		ft := st.Field(i).Type()
+		fv := c.structField(v, t, i)
+		switch fv.Sort {
+		case SPtr, SSlice, SInt, SIface:
+			c.assumeTypeInv(fv, ft, c.curAllocState)
+		default:
+			if inner, ok := types.Unalias(ft).Underlying().(*types.Struct); ok && depth < 1 && inner.NumFields() <= 12 {
+				c.structTypeInv(fv, ft, inner, nil, depth+1)
+			}
+		}
 	}
 }
 
